@@ -34,6 +34,8 @@ def make_tree(ctx, root, shape, leafmode, nshape=None):
     LAB = ['a', 0, (1, 't'), 'a', 'b', 0, 7, 'b', 'a', 0, 'b', 7]       # leaf labels in order of use (repeats on purpose)
     if leafmode == 'models_int':
         LAB = [0, 1, 2, 0, 1, 2, 0, 1, 2, 0, 1, 2]
+    if leafmode == 'labels_rep':
+        LAB = ['a', 'a', 0, 0, 'a', 'a', 'a', 0, 'a', 0, 0, 'a']        # the same label several times inside one gate
     # count inner gates
     ninner = 0
     for c in shape:
@@ -153,7 +155,7 @@ def jobs(tier, seed):
         for si, shape in enumerate(shapes):
             if root in ('NOT', 'BUFFER') and len(shape) != 1:
                 continue
-            for leafmode in ['labels', 'poly', 'models', 'models_int']:
+            for leafmode in ['labels', 'labels_rep', 'poly', 'models', 'models_int']:
                 if leafmode == 'poly' and not shape: continue
                 if tier == 'quick' and leafmode in ('models', 'models_int') and si % 2 == 1: continue
                 J.append(dict(name='%s/shape%02d/%s' % (root, si, leafmode), sig='%s/%s' % (root, leafmode), module='vq.props.c07', make='make_tree',
